@@ -191,6 +191,11 @@ def commitBk (ps sth rth fu : Nat) (order : List Nat) (b : Bk) : Option Bk :=
     if inlineableBk ps b1 then some (asInline b1)
     else (spillBk ps sth fu fu b1).map (·.1))
 
+/-- the same for the transaction's ROOT bucket (`tx.root`): it is never inline; `Tx.Commit` calls
+    `tx.root.rebalance()` and `tx.root.spill()` and stores the new root page in the meta -/
+def commitRoot (ps sth rth fu : Nat) (order : List Nat) (b : Bk) : Option Bk :=
+  (rebalanceBk rth fu order fu b).bind (fun b1 => (spillBk ps sth fu fu b1).map (·.1))
+
 /-! ### what the next transaction reads: every nested bucket, opened or not -/
 
 /-- `full orig path b`: the bucket at `path` with EVERY nested bucket attached: the opened ones
